@@ -676,6 +676,7 @@ type goGen struct {
 	olds []string
 	bad  string
 	inOld bool
+	oldNames map[string]string // pure-function replay: parameter -> snapshot variable
 }
 
 func (g *goGen) expr(e ast.Expr) string {
@@ -743,7 +744,7 @@ func (g *goGen) expr(e ast.Expr) string {
 					args = append(args, g.expr(e.Args[i]))
 				}
 				_ = params
-				sub := &goGen{p: g.p, pkg: g.pkg, olds: g.olds, inOld: g.inOld}
+				sub := &goGen{p: g.p, pkg: g.pkg, olds: g.olds, inOld: g.inOld, oldNames: g.oldNames}
 				src := sub.expr(substIdents(body, d.Params, e.Args))
 				g.olds = sub.olds
 				if sub.bad != "" {
@@ -772,6 +773,11 @@ func (g *goGen) expr(e ast.Expr) string {
 	case *ast.Ident:
 		if g.inOld && e.Name == "intp" {
 			return "pre"
+		}
+		if g.inOld {
+			if r, ok := g.oldNames[e.Name]; ok {
+				return r
+			}
 		}
 		return e.Name
 	case *ast.BasicLit:
@@ -839,12 +845,45 @@ func substIdents(e ast.Expr, params []string, args []ast.Expr) ast.Expr {
 	return rec(e)
 }
 
-// replayPure: functions of scalars / strings / byte slices.
+// replayPure: functions of scalars / strings / byte slices.  A model that does
+// not reproduce on the real code (models of the quantifier-free relaxation
+// can be spurious) is excluded and the next one is tried, a few times.
 func replayPure(o *Options, p *Program, ob *Obligation, fn *ssa.Function) *ReplayResult {
+	var hints []string
+	var last *ReplayResult
+	for iter := 0; iter < 3; iter++ {
+		res, block := replayPureOnce(o, p, ob, fn, hints)
+		if res == nil {
+			return last
+		}
+		last = res
+		if res.Confirmed || block == "" {
+			return res
+		}
+		hints = append(hints, block)
+	}
+	return last
+}
+
+func replayPureOnce(o *Options, p *Program, ob *Obligation, fn *ssa.Function, hints []string) (*ReplayResult, string) {
+	r, block := replayPureOnce1(o, p, ob, fn, hints)
+	return r, block
+}
+
+func replayPureOnce1(o *Options, p *Program, ob *Obligation, fn *ssa.Function, hints []string) (res0 *ReplayResult, blockClause string) {
 	c := ob.ctx
-	s, err := startSession(ob.query(), ob.Result.Backend, nil, ob.candidateQuery())
+	var blocks []string
+	defer func() {
+		if len(blocks) > 0 {
+			blockClause = not(and(blocks...))
+		}
+	}()
+	ret := func(r *ReplayResult) (*ReplayResult, string) { return r, "" }
+	_ = ret
+	s, err := startSession(ob.query(), ob.Result.Backend, hints, ob.candidateQuery())
 	if err != nil {
-		return &ReplayResult{Verdict: "no model session: " + err.Error()}
+		res0 = &ReplayResult{Verdict: "no model session: " + err.Error()}
+		return
 	}
 	defer s.close()
 	m := &modelReader{s: s, c: c}
@@ -853,7 +892,8 @@ func replayPure(o *Options, p *Program, ob *Obligation, fn *ssa.Function) *Repla
 	for _, pr := range fn.Params {
 		name := findDecl(c, "p_"+pr.Name()+"!")
 		if name == "" {
-			return nil
+			res0 = nil
+			return
 		}
 		t := pr.Type()
 		var src string
@@ -861,35 +901,42 @@ func replayPure(o *Options, p *Program, ob *Obligation, fn *ssa.Function) *Repla
 		case isBool(t):
 			v, err := s.value(name)
 			if err != nil {
-				return nil
+				res0 = nil
+				return
 			}
 			src = v.atom
+			blocks = append(blocks, eq(name, v.atom))
 		case isFloat(t):
 			v, err := s.value(name)
 			if err != nil {
-				return nil
+				res0 = nil
+				return
 			}
 			r, ok := sexpRealGo(v)
 			if !ok {
-				return &ReplayResult{Verdict: "model not replayable (float value)"}
+				res0 = &ReplayResult{Verdict: "model not replayable (float value)"}
+				return
 			}
 			src = r
 		case isString(t):
 			str, ok := m.str(name)
 			if !ok {
-				return &ReplayResult{Verdict: "model not replayable (string too long)"}
+				res0 = &ReplayResult{Verdict: "model not replayable (string too long)"}
+				return
 			}
 			src = strconv.Quote(str)
 		case isByteSlice(t):
 			ref, off, ln, ok := m.sliceParts(name)
 			if !ok || ln > 4096 {
-				return &ReplayResult{Verdict: "model not replayable (slice too long)"}
+				res0 = &ReplayResult{Verdict: "model not replayable (slice too long)"}
+				return
 			}
 			var bs []string
 			for i := int64(0); i < ln; i++ {
 				bv, err := s.value(fmt.Sprintf("(select (select H_uint8@0 %d) %d)", ref, off+i))
 				if err != nil {
-					return nil
+					res0 = nil
+					return
 				}
 				b, _ := sexpInt(bv)
 				bs = append(bs, fmt.Sprint(b))
@@ -901,13 +948,16 @@ func replayPure(o *Options, p *Program, ob *Obligation, fn *ssa.Function) *Repla
 		default:
 			v, err := s.value(c.toIdx(t, name))
 			if err != nil {
-				return nil
+				res0 = nil
+				return
 			}
 			n, ok := sexpInt(v)
 			if !ok {
-				return &ReplayResult{Verdict: "model not replayable (integer value)"}
+				res0 = &ReplayResult{Verdict: "model not replayable (integer value)"}
+				return
 			}
 			src = fmt.Sprintf("%d", n)
+			blocks = append(blocks, eq(c.toIdx(t, name), smtInt64(n)))
 			if n == -9223372036854775808 {
 				src = "math.MinInt64"
 			}
@@ -921,8 +971,13 @@ func replayPure(o *Options, p *Program, ob *Obligation, fn *ssa.Function) *Repla
 		args = append(args, tn+"("+src+")")
 		desc = append(desc, pr.Name()+" = "+src)
 	}
+	if ob.Kind == "ensures" {
+		res0 = replayPureEnsures(o, p, ob, fn, args, desc)
+		return
+	}
 	if !safetyKinds[ob.Kind] {
-		return &ReplayResult{Verdict: "counterexample: " + strings.Join(desc, ", ") + " (no executable check for this obligation kind)"}
+		res0 = &ReplayResult{Verdict: "counterexample: " + strings.Join(desc, ", ") + " (no executable check for this obligation kind)"}
+		return
 	}
 	var b strings.Builder
 	b.WriteString("package " + fn.Pkg.Pkg.Name() + "\n\nimport (\n\t\"math\"\n\t\"testing\"\n)\n\nvar _ = math.MinInt64\n\n")
@@ -932,6 +987,90 @@ func replayPure(o *Options, p *Program, ob *Obligation, fn *ssa.Function) *Repla
 	rel := strings.TrimPrefix(fn.Pkg.Pkg.Path(), p.modPath)
 	out, confirmed := goTestRun(o, filepath.Join(p.repo, rel), b.String(), shortName(ob.Name))
 	rr := &ReplayResult{Confirmed: confirmed, Detail: "arguments: " + strings.Join(desc, ", ") + "\n--- go test output ---\n" + truncate(out, 4000)}
+	if confirmed {
+		rr.Verdict = "CONFIRMED on the real code"
+	} else {
+		rr.Verdict = "not reproduced on the real code with this model (the obligation failed nevertheless)"
+	}
+	res0 = rr
+	return
+}
+
+// replayPureEnsures: run the real function on the model's arguments and
+// evaluate the violated postcondition, compiled to Go, on the outcome.
+func replayPureEnsures(o *Options, p *Program, ob *Obligation, fn *ssa.Function, args, desc []string) *ReplayResult {
+	fc := p.contracts[ob.Func]
+	if fc == nil {
+		return nil
+	}
+	idx := -1
+	if i := strings.LastIndex(ob.Tag, "ensures"); i >= 0 {
+		rest := ob.Tag[i+len("ensures"):]
+		if j := strings.IndexAny(rest, ".#"); j >= 0 {
+			rest = rest[:j]
+		}
+		if n, err := strconv.Atoi(rest); err == nil {
+			idx = n - 1
+		}
+	}
+	if idx < 0 || idx >= len(fc.Ensures) {
+		return &ReplayResult{Verdict: "counterexample: " + strings.Join(desc, ", ") + " (clause not found)"}
+	}
+	cl := fc.Ensures[idx]
+	e, err := cl.parse()
+	if err != nil {
+		return nil
+	}
+	g := &goGen{p: p, pkg: fn.Pkg.Pkg, oldNames: map[string]string{}}
+	var b strings.Builder
+	b.WriteString("package " + fn.Pkg.Pkg.Name() + "\n\nimport (\n\t\"math\"\n\t\"testing\"\n)\n\nvar _ = math.MinInt64\n\n")
+	b.WriteString("// Replay of obligation " + ob.Name + "\n")
+	b.WriteString("func TestGovcReplay(t *testing.T) {\n")
+	var names []string
+	for i, pr := range fn.Params {
+		b.WriteString(fmt.Sprintf("\t%s := %s\n\t_ = %s\n", pr.Name(), args[i], pr.Name()))
+		on := "old_" + pr.Name()
+		if isByteSlice(pr.Type()) {
+			b.WriteString(fmt.Sprintf("\t%s := append([]byte(nil), %s...)\n\t_ = %s\n", on, pr.Name(), on))
+		} else {
+			b.WriteString(fmt.Sprintf("\t%s := %s\n\t_ = %s\n", on, pr.Name(), on))
+		}
+		g.oldNames[pr.Name()] = on
+		names = append(names, pr.Name())
+	}
+	body := g.expr(e)
+	if g.bad != "" {
+		return &ReplayResult{Verdict: "counterexample: " + strings.Join(desc, ", ") + " (clause not executable in the replay: " + g.bad + ")"}
+	}
+	nres := fn.Signature.Results().Len()
+	var rn []string
+	switch nres {
+	case 0:
+	case 1:
+		rn = []string{"result"}
+	default:
+		for i := 0; i < nres; i++ {
+			rn = append(rn, fmt.Sprintf("result%d", i))
+		}
+	}
+	for i, r := range rn {
+		b.WriteString(fmt.Sprintf("\tvar %s %s\n\t_ = %s\n", r, types.TypeString(fn.Signature.Results().At(i).Type(), func(pk *types.Package) string {
+			if pk == fn.Pkg.Pkg {
+				return ""
+			}
+			return pk.Name()
+		}), r))
+	}
+	call := fn.Name() + "(" + strings.Join(names, ", ") + ")"
+	if len(rn) > 0 {
+		call = strings.Join(rn, ", ") + " = " + call
+	}
+	b.WriteString("\tpanicked := func() (p interface{}) {\n\t\tdefer func() { p = recover() }()\n\t\t" + call + "\n\t\treturn nil\n\t}()\n")
+	b.WriteString("\tif panicked != nil {\n\t\tt.Fatalf(\"REPLAY-CONFIRMED: panic: %v\", panicked)\n\t}\n")
+	b.WriteString("\tif !(" + body + ") {\n\t\tt.Fatalf(\"REPLAY-CONFIRMED: postcondition violated: %s\", " + strconv.Quote(cl.Text) + ")\n\t}\n}\n")
+	rel := strings.TrimPrefix(fn.Pkg.Pkg.Path(), p.modPath)
+	out, confirmed := goTestRun(o, filepath.Join(p.repo, rel), b.String(), shortName(ob.Name))
+	rr := &ReplayResult{Confirmed: confirmed, Detail: "arguments: " + strings.Join(desc, ", ") + "\nexpectation: " + cl.Text + "\n--- go test output ---\n" + truncate(out, 4000)}
 	if confirmed {
 		rr.Verdict = "CONFIRMED on the real code"
 	} else {
@@ -955,4 +1094,11 @@ func (o *Obligation) candidateQuery() string {
 	b.WriteString("(assert " + and(o.guard, not(qfGoal(o.goal))) + ")\n(check-sat)\n")
 	// the preamble itself contains one quantified axiom about empty strings; keep it
 	return b.String()
+}
+
+func smtInt64(n int64) string {
+	if n < 0 {
+		return "(- " + strings.TrimPrefix(fmt.Sprint(n), "-") + ")"
+	}
+	return fmt.Sprint(n)
 }
